@@ -160,6 +160,43 @@ def conc_case(args):
     return {'seed': seed, 'programs': programs, 'shared': shared, 'abort': abort, 'nested': nested, 'results': out}
 
 
+def incr_block_probe():
+    """incr inside a block that raises, with a Disk that puts numbers into files (JSONDisk with
+    disk_min_file_size=0): the file incr wrote goes with the rollback (finding D24, fixed; Lean: DC.Cache.block_abort_incr_clean,
+    block_abort_check_quiet_clean) - for a new key, for an expired key, and for incr's
+    own transaction failing"""
+    import os
+    import shutil
+    import tempfile
+    import time
+    import diskcache
+    root = os.environ.get('VERIF_SCRATCH') or tempfile.gettempdir()
+    bad = []
+    d = tempfile.mkdtemp(prefix='c6incr-', dir=root)
+    try:
+        c = diskcache.Cache(d, disk=diskcache.JSONDisk, disk_min_file_size=0)
+        c.set('old', 5, expire=0.01)
+        time.sleep(0.05)
+        for key in ('fresh', 'old'):
+            try:
+                with c.transact():
+                    c.incr(key)
+                    raise RuntimeError
+            except RuntimeError:
+                pass
+            warns = [str(w.message).split(':')[0] for w in c.check() if 'empty directory' not in str(w.message)]
+            if warns:
+                bad.append("incr(%r) inside a block that raises (JSONDisk, every value in a file): check() afterwards reports %r" % (key, warns[:3]))
+        if c.get('fresh') is not None:
+            bad.append('incr inside a block that raises left the key behind')
+        c.close()
+    except Exception as e:  # noqa
+        bad.append('incr-block probe raised %s: %s' % (type(e).__name__, str(e)[:100]))
+    finally:
+        shutil.rmtree(d, ignore_errors=True)
+    return bad
+
+
 def evicting_block_probe():
     """a block whose writes EVICT (the cache is at its size limit, file-backed items, every policy) and
     which then raises: the cache is exactly as it was before the block - every evicted item back with its
@@ -220,7 +257,7 @@ def run(tier, seed, rng, known, replay):
     r = base.check_histories('C06', hists, ('result', 'state', 'trace'), acceptor=acceptor, known=known)
     dist, distinct = base.op_distribution(hists, r['impl_out'])
     violations = list(r['violations'])
-    for v_ in evicting_block_probe()[:2]:
+    for v_ in (evicting_block_probe() + incr_block_probe())[:3]:
         violations.append({'replay': {'property': 'C06', 'kind': 'evicting-block-probe', 'acceptor': v_}, 'found_input': True, 'what': v_})
     # (b) concurrent blocks
     n_cases = 24 if tier == 'quick' else 120
